@@ -233,8 +233,8 @@ func (w *world) nodeOpt(name string) string {
 
 // dump sections of the real session
 type dump struct {
-	nodes               map[string]string
-	pods, jobs, queues  string
+	nodes              map[string]string
+	pods, jobs, queues string
 }
 
 func (w *world) dump() dump {
@@ -501,6 +501,10 @@ type result struct {
 	panicked    string
 	stale       int // rollbacks / discards after which a pod's GPU groups differ from the checkpoint
 	steps       int
+	// shapes inside one statement, counted on the operations still in the log (a rollback drops what it undoes):
+	reEvict       int            // a pod is evicted again after it was un-evicted
+	reUnevict     int            // ... and un-evicted again (evict, un-evict, evict, un-evict of one pod)
+	reUnevictThen map[string]int // what ended the statement after such a second un-eviction
 }
 
 func runCase(c cycle.Cluster, fails map[int]bool, d driver, maxSteps int) result {
@@ -514,6 +518,23 @@ func runCase(c cycle.Cluster, fails map[int]bool, d driver, maxSteps int) result
 	var shadow []string
 	cpDump := map[int]dump{}
 	start := prev
+	type evEvent struct {
+		pos  int
+		pod  string
+		kind byte // 'E' evict, 'U' un-evict
+	}
+	var evs []evEvent
+	pending2nd := false // the statement holds a second un-eviction of some pod
+	res.reUnevictThen = map[string]int{}
+	seqOf := func(pod string) string {
+		b := []byte{}
+		for _, e := range evs {
+			if e.pod == pod {
+				b = append(b, e.kind)
+			}
+		}
+		return string(b)
+	}
 	for i := 0; i < maxSteps; i++ {
 		cs := d.next(w, i)
 		if cs == nil {
@@ -521,6 +542,12 @@ func runCase(c cycle.Cluster, fails map[int]bool, d driver, maxSteps int) result
 		}
 		before := int(w.stmt.Checkpoint())
 		nc := len(w.fc.calls)
+		wasEvicted := false
+		if cs.Pod != "" {
+			if t := w.pod(cs.Pod); t != nil {
+				wasEvicted = t.Status == pod_status.Releasing && t.IsVirtualStatus
+			}
+		}
 		failed, ret, pmsg := w.exec(*cs)
 		if pmsg != "" {
 			res.panicked = cs.String() + ": " + pmsg
@@ -528,6 +555,42 @@ func runCase(c cycle.Cluster, fails map[int]bool, d driver, maxSteps int) result
 			break
 		}
 		after := int(w.stmt.Checkpoint())
+		if !failed {
+			switch cs.Kind {
+			case "evict":
+				evs = append(evs, evEvent{before, cs.Pod, 'E'})
+				if strings.HasSuffix(seqOf(cs.Pod), "EUE") {
+					res.reEvict++
+				}
+			case "unevict", "pipeline":
+				t := w.pod(cs.Pod)
+				if wasEvicted && t != nil && !t.IsVirtualStatus && t.Status != pod_status.Releasing {
+					evs = append(evs, evEvent{before, cs.Pod, 'U'})
+					if strings.HasSuffix(seqOf(cs.Pod), "EUEU") {
+						res.reUnevict++
+						pending2nd = true
+					}
+				}
+			case "rollback":
+				k := 0
+				for _, e := range evs {
+					if e.pos < cs.Cp {
+						evs[k] = e
+						k++
+					}
+				}
+				evs = evs[:k]
+				if pending2nd {
+					res.reUnevictThen["rollback"]++
+				}
+			case "discard", "commit":
+				evs = nil
+				if pending2nd {
+					res.reUnevictThen[cs.Kind]++
+				}
+				pending2nd = false
+			}
+		}
 		switch cs.Kind {
 		case "rollback", "discard":
 			cp := cs.Cp
